@@ -58,6 +58,9 @@ def extract():
         rets = [ast.unparse(n.value) for n in ast.walk(fwd) if isinstance(n, ast.Return)]
         facts["returns"] = rets
         facts["diagClone"] = "matrix_diag.clone()" in _assigns(fwd, "matrix_diag")
+        # the masking of converged batch members (fix d829792): clamp before sqrt, where(pivot > 0, ., 0) — mirrored by `stepM`
+        facts["maskStmts"] = [ast.unparse(n.value) for n in ast.walk(fwd) if isinstance(n, ast.Expr) and isinstance(n.value, ast.Call)
+                              and ast.unparse(n.value.func) == "L_m.scatter_"] + _assigns(fwd, "pivot") + _assigns(fwd, "L_m_new")
     # ---- AddedDiag._preconditioner / caches
     ad = ast.parse(open(os.path.join(REPO, "linear_operator/operators/added_diag_linear_operator.py")).read())
     pre = _find(ad, "AddedDiagLinearOperator", "_preconditioner")
@@ -72,6 +75,34 @@ def extract():
         facts["maxIterSource"] = (_assigns(pre, "max_iter") or ["?"])[0]
         facts["closureReturns"] = [ast.unparse(n.value) for f in ast.walk(pre) if isinstance(f, ast.FunctionDef) and f is not pre
                                    for n in ast.walk(f) if isinstance(n, ast.Return)]
+        # the factor is computed inside the `if self._q_cache is None:` guard (state of THIS AddedDiag object only)
+        facts["qCacheGuard"] = [ast.unparse(n.test) for n in ast.walk(pre) if isinstance(n, ast.If)
+                                and any(isinstance(a, ast.Assign) and any(ast.unparse(t) == "self._piv_chol_self" for t in a.targets)
+                                        for a in n.body)]
+    # ---- LinearOperator.pivoted_cholesky: decorators (none: nothing is memoised on the operator object, every call runs the
+    # Function with the settings in force) and body
+    lo = ast.parse(open(os.path.join(REPO, "linear_operator/operators/_linear_operator.py")).read())
+    meth = _find(lo, "LinearOperator", "pivoted_cholesky")
+    facts["pcDecorators"] = [ast.unparse(d) for d in meth.decorator_list] if meth else ["?"]
+    facts["pcMethodBody"] = [ast.unparse(s_).replace("\n", " ") for s_ in meth.body
+                             if not (isinstance(s_, ast.Expr) and isinstance(s_.value, ast.Constant))] if meth else ["?"]
+    # every definition of pivoted_cholesky in the operator classes (an override could memoise on its own)
+    import glob
+    defs = []
+    for path in sorted(glob.glob(os.path.join(REPO, "linear_operator/operators/*.py"))):
+        try:
+            tr = lo if path.endswith("/_linear_operator.py") else ast.parse(open(path).read())
+        except SyntaxError:
+            defs.append("?" + os.path.basename(path))
+            continue
+        for c in ast.walk(tr):
+            if isinstance(c, ast.ClassDef):
+                for f in c.body:
+                    if isinstance(f, ast.FunctionDef) and f.name == "pivoted_cholesky":
+                        defs.append(c.name)
+    facts["pcDefinedIn"] = defs
+    fwd_decos = [ast.unparse(d) for d in fwd.decorator_list] if fwd else ["?"]
+    facts["forwardDecorators"] = fwd_decos
     for fn in ("_init_cache", "_init_cache_for_constant_diag", "_init_cache_for_non_constant_diag"):
         f = _find(ad, "AddedDiagLinearOperator", fn)
         body = []
@@ -107,8 +138,8 @@ def generate():
     for k in ("whileTest", "maxIterClamp", "origError", "tolDefault", "enableTest", "pivCholCall", "maxIterSource"):
         out.append(f"def {k} : String := {lean_str(f.get(k, '?'))}")
     out.append(f"def diagClone : Bool := {'true' if f.get('diagClone') else 'false'}")
-    for k in ("bodyIfs", "errors", "returns", "closureReturns", "_init_cache", "_init_cache_for_constant_diag",
-              "_init_cache_for_non_constant_diag"):
+    for k in ("bodyIfs", "errors", "returns", "closureReturns", "maskStmts", "qCacheGuard", "pcDecorators", "pcMethodBody", "pcDefinedIn",
+              "forwardDecorators", "_init_cache", "_init_cache_for_constant_diag", "_init_cache_for_non_constant_diag"):
         name = k.lstrip("_")
         name = {"init_cache": "initCache", "init_cache_for_constant_diag": "initCacheConst",
                 "init_cache_for_non_constant_diag": "initCacheNonconst"}.get(name, name)
